@@ -10,6 +10,7 @@ import (
 
 	"github.com/hneemann/parser2/funcGen"
 	"github.com/hneemann/parser2/value"
+	"github.com/hneemann/parser2/value/export"
 
 	"verif/bridge"
 	"verif/gen"
@@ -194,8 +195,15 @@ func (c16) Run(c *wk.Case) {
 			continue
 		}
 		mon.TheSlot.Take()
-		gi := evalReal(fImp, []value.Value{bridge.RealMap(mref, va)})
-		ge := evalReal(fExp, []value.Value{bridge.RealMap(mref, va)})
+		wrap := func(m value.Value) value.Value {
+			if c.Index%7 == 3 {
+				// a host value that only acts as a map (ToMap), here the exporter's formatting wrapper
+				return export.Format{Value: m}
+			}
+			return m
+		}
+		gi := evalReal(fImp, []value.Value{wrap(bridge.RealMap(mref, va))})
+		ge := evalReal(fExp, []value.Value{wrap(bridge.RealMap(mref, va))})
 		if c.Verbose {
 			c.Logf("map %s: implicit %s err=%v | explicit %s err=%v | reference %s err=%v", ref.Describe(mref), bridge.Describe(gi.Val), gi.Err, bridge.Describe(ge.Val), ge.Err, ref.Describe(wv), we)
 		}
@@ -265,8 +273,15 @@ func c16Raw(c *wk.Case, g *value.FunctionGenerator, it [3]string) {
 	}
 	for kind := 0; kind < 5; kind++ {
 		va := bridge.Variant{LazyLists: kind%2 == 0, MapKind: kind}
-		gi := evalReal(fImp, []value.Value{bridge.RealMap(mref, va)})
-		ge := evalReal(fExp, []value.Value{bridge.RealMap(mref, va)})
+		wrap := func(m value.Value) value.Value {
+			if c.Index%7 == 3 {
+				// a host value that only acts as a map (ToMap), here the exporter's formatting wrapper
+				return export.Format{Value: m}
+			}
+			return m
+		}
+		gi := evalReal(fImp, []value.Value{wrap(bridge.RealMap(mref, va))})
+		ge := evalReal(fExp, []value.Value{wrap(bridge.RealMap(mref, va))})
 		si, se := "", ""
 		if gi.Err == nil {
 			si = bridge.Describe(gi.Val)
